@@ -27,6 +27,13 @@ func floatCode(x float64) int64 {
 	return int64(b)
 }
 
+func floatOfCode(c int64) float64 {
+	if c < 0 {
+		return math.Float64frombits(uint64(-c) | 1<<63)
+	}
+	return math.Float64frombits(uint64(c))
+}
+
 func tok(v any) string {
 	switch v := v.(type) {
 	case int:
@@ -79,7 +86,8 @@ type node struct {
 	pairs    bool // arr built with `collection (pair k v) …` instead of a literal
 	kids     []*node
 	n        int
-	fn       string // token of the lambda
+	nf       *float64 // take: the count given as a float literal (converted to int by api.Convert)
+	fn       string   // token of the lambda
 	fnExpr   b6.Expression
 	literalO bool // flatten: outer collection is a literal ArrayCollection of collections
 }
@@ -96,6 +104,9 @@ func (n *node) text() string {
 		}
 		return "(arr " + strings.Join(xs, " ") + " )"
 	case "take":
+		if n.nf != nil {
+			return fmt.Sprintf("(take %s %s )", n.kids[0].text(), tok(*n.nf))
+		}
 		return fmt.Sprintf("(take %s %d )", n.kids[0].text(), n.n)
 	case "filter", "map", "mapitems":
 		return fmt.Sprintf("(%s %s %s )", n.kind, n.kids[0].text(), n.fn)
@@ -126,6 +137,9 @@ func (n *node) expr() b6.Expression {
 		}
 		return b6.NewCollectionExpression(b6.ArrayCollection[any, any]{Keys: n.keys, Values: n.vals}.Collection())
 	case "take":
+		if n.nf != nil {
+			return call("take", n.kids[0].expr(), b6.NewFloatExpression(*n.nf))
+		}
 		return call("take", n.kids[0].expr(), b6.NewIntExpression(n.n))
 	case "filter":
 		return call("filter", n.kids[0].expr(), n.fnExpr)
@@ -158,9 +172,8 @@ func (n *node) depth() int {
 	return d + 1
 }
 
-// mayHoldFloat: some value (or, because of `swap`, key) flowing through this subtree may be a float64.
-// add-ints / to-str on a float go through the VM's float64->int argument conversion, which is not part of
-// this property's model (C21/C23 own the VM); the generator does not build such calls.
+// mayHoldFloat: some value (or, because of `swap`, key) flowing through this subtree may be a float64, so
+// add-ints / to-str applied to it go through api.Convert's float64->int conversion (modelled: floatToInt).
 func (n *node) mayHoldFloat() bool {
 	found := false
 	n.walk(func(m *node) {
@@ -245,6 +258,10 @@ func runEv(c *hx.Ctx, root string, n *node) string {
 	case root == "id":
 	case root == "count":
 		e = call("count", e)
+	case strings.HasPrefix(root, "top=f"):
+		var code int64
+		fmt.Sscanf(root, "top=f%d", &code)
+		e = call("top", e, b6.NewFloatExpression(floatOfCode(code)))
 	case strings.HasPrefix(root, "top="):
 		var k int
 		fmt.Sscanf(root, "top=%d", &k)
@@ -276,9 +293,8 @@ func genVal(r *hx.Rand, kind int) any {
 		return strPool[r.Intn(len(strPool))]
 	case 3:
 		return b6.FeatureID{Type: b6.FeatureType(r.Intn(6)), Namespace: b6.Namespace(nsPool[r.Intn(len(nsPool))]), Value: uint64(r.Intn(4))}
-	default: // edge ints, kept within ±2^52 so that comparisons with floats stay exact
-		v := int64(r.Uint64Edge())
-		return int(v >> 11)
+	default: // edge ints over the whole int64 range (float64(int) rounding is modelled)
+		return int(int64(r.Uint64Edge()))
 	}
 }
 
@@ -347,6 +363,24 @@ func genN(r *hx.Rand) int {
 	}
 }
 
+// genCountFloat: a float literal used where an int count is expected
+func genCountFloat(r *hx.Rand) float64 {
+	switch r.Intn(6) {
+	case 0:
+		return float64(r.Intn(8)) + 0.5
+	case 1:
+		return -float64(r.Intn(4)) - 0.25
+	case 2:
+		return float64(r.Intn(6))
+	case 3:
+		return floatPool[r.Intn(len(floatPool))] + 0
+	case 4:
+		return float64(r.Intn(2000)-300) / 8
+	default:
+		return 0.999
+	}
+}
+
 func genFn1(r *hx.Rand, valKind int, wantBool bool, floats bool) (string, b6.Expression) {
 	v := sym("v")
 	k := r.Intn(10)
@@ -356,9 +390,7 @@ func genFn1(r *hx.Rand, valKind int, wantBool bool, floats bool) (string, b6.Exp
 	if !wantBool && k < 4 && r.Bool() {
 		k = 4 + r.Intn(6)
 	}
-	if floats && k >= 4 && k < 7 { // no add-ints / to-str on floats
-		k = []int{0, 2, 7, 8}[r.Intn(4)]
-	}
+	_ = floats
 	switch {
 	case k < 2:
 		cst := genVal(r, valKind)
@@ -385,9 +417,7 @@ func genFn1(r *hx.Rand, valKind int, wantBool bool, floats bool) (string, b6.Exp
 func genFn2(r *hx.Rand, floats bool) (string, b6.Expression) {
 	p := sym("p")
 	k := r.Intn(8)
-	if floats && k >= 4 && k < 7 {
-		k = r.Intn(4)
-	}
+	_ = floats
 	switch {
 	case k < 4:
 		return "swap", lambda("p", call("pair", call("second", p), call("first", p)))
@@ -406,7 +436,13 @@ func gen(c *hx.Ctx, depth int, keyKind, valKind int) *node {
 	}
 	switch k := r.Intn(20); {
 	case k < 4:
-		return &node{kind: "take", kids: []*node{gen(c, depth-1, keyKind, valKind)}, n: genN(r)}
+		nd := &node{kind: "take", kids: []*node{gen(c, depth-1, keyKind, valKind)}, n: genN(r)}
+		if r.Chance(1, 6) {
+			f := genCountFloat(r)
+			nd.nf = &f
+			c.Note("take:float-n")
+		}
+		return nd
 	case k < 7:
 		nd := &node{kind: "filter", kids: []*node{gen(c, depth-1, keyKind, valKind)}}
 		nd.fn, nd.fnExpr = genFn1(r, valKind, true, nd.kids[0].mayHoldFloat())
@@ -452,6 +488,9 @@ func note(c *hx.Ctx, root string, n *node, ans string) {
 		if m.kind == "take" && m.n == 0 {
 			c.Note("take:zero-n")
 		}
+		if (strings.HasPrefix(m.fn, "addc") || m.fn == "tostr" || strings.HasPrefix(m.fn, "incv")) && m.kids[0].mayHoldFloat() {
+			c.Note("convert:float-to-int-arg")
+		}
 	})
 	c.Note(fmt.Sprintf("depth:%d", n.depth()))
 	switch {
@@ -493,8 +532,10 @@ func genRoot(r *hx.Rand) string {
 		return "id"
 	case k < 50:
 		return "count"
-	case k < 66:
+	case k < 63:
 		return fmt.Sprintf("top=%d", genN(r))
+	case k < 66:
+		return "top=" + tok(genCountFloat(r))
 	case k < 76:
 		return "sumbykey"
 	case k < 84:
